@@ -633,7 +633,7 @@ def rule_coh_grid(ctx: Ctx) -> None:
                 lay = t0.id
     iw_name = 'inv_worker'
     for n_ in nodes:
-        if isinstance(n_, ast.Compare) and len(n_.ops) == 1 and isinstance(n_.ops[0], ast.In) and isinstance(n_.left, ast.Name) and isinstance(n_.comparators[0], ast.Name):
+        if isinstance(n_, ast.Compare) and len(n_.ops) == 1 and isinstance(n_.ops[0], (ast.In, ast.NotIn)) and isinstance(n_.left, ast.Name) and isinstance(n_.comparators[0], ast.Name):
             lps_ = [lp for lp in flow.enclosing_loops(p, init, n_) if isinstance(lp, ast.For) and norm(lp.iter) == 'grad_worker_ranks' and norm(lp.target) == n_.comparators[0].id]
             if lps_:
                 iw_name = n_.left.id
@@ -641,11 +641,11 @@ def rule_coh_grid(ctx: Ctx) -> None:
         sts = [n for n in nodes if isinstance(n, ast.Assign) and len(n.targets) == 1 and isinstance(n.targets[0], ast.Subscript) and norm(n.targets[0].value) == f'self.{rec}']
         good = False
         for st in sts:
-            atoms = [(norm(a), pol) for g in flow.enclosing_guards(p, init, st) for a, pol in conjuncts(g.test, g.polarity)]
+            atoms = [(norm(a), pol) for g in flow.guards(p, init, st) for a, pol in conjuncts(g.test, g.polarity)]
             loops = [lp for lp in flow.enclosing_loops(p, init, st) if isinstance(lp, ast.For)]
             v = st.value
             lvars = [norm(lp.target) for lp in loops if norm(lp.iter) == tab and isinstance(lp.target, ast.Name)]
-            lv_ = next((x for x in lvars if (f'{member} in {x}', True) in atoms), None)
+            lv_ = next((x for x in lvars if (f'{member} in {x}', True) in atoms or (f'{member} not in {x}', False) in atoms), None)
             if lv_ is not None \
                     and isinstance(v, ast.Call) and norm(v.func) == '_Group' and sorted(k.arg or '' for k in v.keywords) == ['group', 'ranks'] \
                     and norm(st.targets[0].slice) == lay:
